@@ -163,6 +163,9 @@ pub enum Op {
 pub struct Case {
     pub init: Vec<u8>,
     pub classic: bool,
+    /// first data sequence number (so that every slot of the attribution ring, incl. the last, is reached)
+    #[serde(default)]
+    pub first_seq: u32,
     pub ops: Vec<Op>,
 }
 
@@ -177,7 +180,13 @@ fn apply_strategy(max_ops: usize) -> impl Strategy<Value = Case> {
         3 => prop_oneof![0u16..300, Just(1000u16), Just(3001)].prop_map(Op::Advance),
         1 => Just(Op::Housekeeping),
     ];
-    (proptest::collection::btree_set(0u8..8, 1..=4), any::<bool>(), vec(op, 1..max_ops)).prop_map(|(init, classic, ops)| Case { init: init.into_iter().collect(), classic, ops })
+    (
+        proptest::collection::btree_set(0u8..8, 1..=4),
+        any::<bool>(),
+        prop_oneof![2 => Just(100u32), 3 => (1u32..8).prop_flat_map(|k| (k * 16_384 - 60)..(k * 16_384 - 1)), 1 => Just(0u32), 1 => Just(0x7fff_ff00u32), 1 => 0u32..0x7fff_0000],
+        vec(op, 1..max_ops),
+    )
+        .prop_map(|(init, classic, first_seq, ops)| Case { init: init.into_iter().collect(), classic, first_seq, ops })
 }
 
 fn full_projection(sh: &Shell, i: usize) -> String {
@@ -205,7 +214,7 @@ pub fn check_apply(case: &Case, obs: &mut Obs) -> CheckResult {
     let mut sh = Shell::new(&case.init, cfg);
     sh.establish_all();
     let mut owners = Owners::default();
-    let mut seq: u32 = 100;
+    let mut seq: u32 = case.first_seq;
     let mut nontrivial = false;
     let mut reloads = 0u32;
     for (oi, op) in case.ops.iter().enumerate() {
@@ -218,7 +227,10 @@ pub fn check_apply(case: &Case, obs: &mut Obs) -> CheckResult {
             }
             Op::Client(k) => {
                 for _ in 0..*k {
-                    seq += 1;
+                    seq = (seq + 1) & 0x7fff_ffff;
+                    if seq % 16_384 == 16_383 {
+                        obs.class("last-ring-slot-used");
+                    }
                     let mut p = vec![0u8; 64];
                     p[0..4].copy_from_slice(&seq.to_be_bytes());
                     p[16..20].copy_from_slice(&seq.to_be_bytes());
